@@ -8,6 +8,7 @@ import (
 	"sort"
 	"strconv"
 	"strings"
+	"sync"
 	"sync/atomic"
 	"time"
 
@@ -224,10 +225,68 @@ func execSvc(op string) func(a []string) string {
 
 var lastAddedID uint32
 
+// svc.race <goroutines> <rounds>: concurrent removals of one object (local Remove from several
+// goroutines, plus a remote terminate every other round); the object's termination hook must
+// have run exactly once and exactly one caller must have been told that it removed the object.
+func execSvcRace(a []string) string {
+	n, _ := strconv.Atoi(a[0])
+	rounds, _ := strconv.Atoi(a[1])
+	if lifeReset() != "ok" {
+		return "setup-error"
+	}
+	w := life
+	for r := 0; r < rounds; r++ {
+		impl := &lifeImpl{uid: r + 1}
+		sibling := &lifeImpl{uid: -r - 1}
+		id, err := w.service.Add(pong.PingPongObject(impl))
+		if err != nil {
+			return "setup-error"
+		}
+		sid2, err := w.service.Add(pong.PingPongObject(sibling))
+		if err != nil {
+			return "setup-error"
+		}
+		var wg sync.WaitGroup
+		var okCount int64
+		start := make(chan struct{})
+		for g := 0; g < n; g++ {
+			wg.Add(1)
+			go func(g int) {
+				defer wg.Done()
+				<-start
+				if g == 0 && r%2 == 1 {
+					if callT(w.cl, w.sid, id, 3, le32b(id), 3*time.Second) == "reply" {
+						atomic.AddInt64(&okCount, 1)
+					}
+					return
+				}
+				if w.service.Remove(id) == nil {
+					atomic.AddInt64(&okCount, 1)
+				}
+			}(g)
+		}
+		close(start)
+		wg.Wait()
+		terms := atomic.LoadInt64(&impl.terms)
+		if terms != 1 {
+			return fmt.Sprintf("fail:termination-hook-ran-%d-times", terms)
+		}
+		if atomic.LoadInt64(&sibling.terms) != 0 {
+			return "fail:sibling-terminated"
+		}
+		if callT(w.cl, w.sid, sid2, 100, strPayload("x"), 3*time.Second) != "reply" {
+			return "fail:sibling-unreachable"
+		}
+		w.service.Remove(sid2)
+	}
+	return "ok"
+}
+
 func init() {
 	for _, op := range []string{"reset", "add", "remove", "call", "term", "sub", "state"} {
 		executors["svc."+op] = execSvc(op)
 	}
+	executors["svc.race"] = execSvcRace
 	runners["C16"] = runC16
 }
 
@@ -343,6 +402,19 @@ func runC16(r *Rand, tier string, o *Out) {
 			}
 		}
 		_ = sort.Strings
+	}
+	// concurrent removals of the same object
+	rounds := 3000
+	if tier == "thorough" {
+		rounds = 40000
+	}
+	for _, g := range []int{2, 16} {
+		op := fmt.Sprintf("svc.race %d %d", g, rounds)
+		res := o.Do("P", op, true)
+		o.Count("op:concurrent-remove")
+		if res != "ok" {
+			o.Fail("concurrent removals of one object: "+strings.TrimPrefix(res, "fail:"), op+" => "+res)
+		}
 	}
 	if life != nil {
 		life.srv.Terminate()
